@@ -6,7 +6,7 @@ import (
 	"path/filepath"
 	"strings"
 	"sync"
-	"testing"
+	"sync/atomic"
 	"time"
 
 	kv "github.com/XiXi-2024/xixi-kv"
@@ -21,10 +21,15 @@ import (
 //
 // C04 wants the batch to be invisible after that crash - key X must map to what it mapped to before the batch.
 // The image is taken at the close of the marker file (marker written and flushed), i.e. between two I/O calls.
-func c04MergeBatchProbe(t *testing.T, st *kvh.Stats) {
+func c04MergeBatchProbe(t fataler, st *kvh.Stats) {
 	if !kvh.GetEnv().Mine(0) {
 		return
 	}
+	// a probe that comes to a halt is a verdict of the deadlock watchdog like any other case
+	kvh.SetInFlight(&kvh.InFlight{Property: "C04", Case: func() any {
+		return map[string]string{"property": "C04", "kind": "probe-c04-merge-batch", "note": "fixed schedule, see c04MergeBatchProbe"}
+	}})
+	defer kvh.SetInFlight(nil)
 	e := kvh.GetEnv()
 	base := e.NewDir("c04probe")
 	defer func() {
@@ -66,6 +71,7 @@ func c04MergeBatchProbe(t *testing.T, st *kvh.Stats) {
 	}
 
 	var once, onceImg sync.Once
+	var mergeWaited atomic.Bool
 	pieceFlushed := make(chan struct{})
 	imageTaken := make(chan struct{})
 	batchDone := make(chan error, 1)
@@ -84,7 +90,20 @@ func c04MergeBatchProbe(t *testing.T, st *kvh.Stats) {
 					err = b.Put([]byte("Z"), kvh.GenValue(101, 250)) // does not fit any more: the piece holding X is flushed
 				}
 				close(pieceFlushed)
-				<-imageTaken
+				// wait for the instant of the crash - or for the merge to come to a halt on the engine lock this batch
+				// holds (a merge that cannot finish while a batch is open cannot produce the hazardous image at all)
+			wait:
+				for {
+					select {
+					case <-imageTaken:
+						break wait
+					case <-time.After(time.Millisecond):
+						if isLockWait(goroutineState("xixi-kv.(*DB).Merge")) {
+							mergeWaited.Store(true)
+							break wait
+						}
+					}
+				}
 				if err == nil {
 					err = b.Commit()
 				} else {
@@ -137,6 +156,13 @@ func c04MergeBatchProbe(t *testing.T, st *kvh.Stats) {
 		report(t, st, &kvh.Case{Property: "C04", Kind: "history", Opt: opt}, &kvh.Fail{Sig: "harness", Msg: "probe: the batch goroutine did not finish"})
 		return
 	}
+	if mergeWaited.Load() && mergeErr == nil && berr == nil {
+		// the merge waited for the batch to commit before it wrote its marker: the image "marker written, batch
+		// open" does not exist
+		st.Eval(1)
+		st.Label("merge-batch-probe-clean-(merge-waits-for-the-open-batch)")
+		return
+	}
 	if mergeErr != nil || berr != nil || image == "" {
 		st.Label("merge-batch-probe-not-reached")
 		return
@@ -162,4 +188,8 @@ func c04MergeBatchProbe(t *testing.T, st *kvh.Stats) {
 	default:
 		report(t, st, &kvh.Case{Property: "C04", Kind: "history", Opt: opt}, &kvh.Fail{Sig: "recovered-state-not-a-prefix", Msg: fmt.Sprintf("merge/batch probe: after the crash Get(X) = (%s, %v), Get(Z) error = %v; X had %s before the uncommitted batch", kvh.ValueDigest(got), gerr, zerr, kvh.ValueDigest(old))})
 	}
+}
+
+func init() {
+	replayers["probe-c04-merge-batch"] = func(_ *kvh.Case, _ []byte) *kvh.Fail { return replayProbe(c04MergeBatchProbe, "C04") }
 }
